@@ -81,12 +81,76 @@ func checkC19(c *fw.Ctx) {
 	checkAccessors(c)
 }
 
+// isWriteUse: the use of a guarded map modifies it (needs the write lock).
+func isWriteUse(u ssa.Instruction) bool {
+	switch x := u.(type) {
+	case *ssa.MapUpdate, *ssa.Store:
+		return true
+	case ssa.CallInstruction:
+		if b, ok := x.Common().Value.(*ssa.Builtin); ok && b.Name() == "delete" {
+			return true
+		}
+	}
+	return false
+}
+
+// checkDecideAndAct: an insertion into the guarded map that is conditional on a lookup of the
+// same map (`if _, ok := m[k]; !ok { m[k] = v }`) happens in the critical section of that
+// lookup: the mutex is not released between the two (check-then-act).
+func checkDecideAndAct(c *fw.Ctx, rule string, fn *ssa.Function, fname, fieldSig, lock string) {
+	ops := fw.LockOps(fn)
+	for _, u := range guardedUses(fn, fieldSig) {
+		mu, ok := u.(*ssa.MapUpdate)
+		if !ok {
+			continue
+		}
+		// a re-check after re-locking (double-checked insertion) is fine: one of the lookups
+		// that decide the insertion must be in the insertion's critical section
+		nLookups, atomic := 0, false
+		stale := ""
+		for _, f := range fw.DomConds(mu.Block()) {
+			cv, _ := fw.BoolCond(f.If.Cond)
+			ex, isEx := cv.(*ssa.Extract)
+			if !isEx || ex.Index != 1 {
+				continue
+			}
+			lk, isLk := ex.Tuple.(*ssa.Lookup)
+			if !isLk || fw.Sig(lk.X) != fw.Sig(mu.Map) {
+				continue
+			}
+			nLookups++
+			released := false
+			for _, op := range ops {
+				if op.Acquire || op.Deferred || !strings.HasPrefix(op.Lock, lock) {
+					continue
+				}
+				if reachesInstr(lk, op.Instr) && reachesInstr(op.Instr, mu) && lk.Block() != mu.Block() {
+					released = true
+					stale = fmt.Sprintf("the entry is looked up at %s, the mutex is released at %s and the insertion at %s relies on the stale answer: concurrent callers that all missed each create and store their own value (check-then-act)", c.P.Pos(fw.InstrPos(lk)), c.P.Pos(fw.InstrPos(op.Instr)), c.P.Pos(fw.InstrPos(mu)))
+				}
+			}
+			if !released {
+				atomic = true
+			}
+		}
+		if nLookups > 0 {
+			c.Check(atomic, rule, fname+": an insertion decided by a lookup happens in the lookup's critical section", c.P.Pos(fw.InstrPos(mu)), "", stale)
+		}
+	}
+}
+
 func checkLocked(c *fw.Ctx, rule string, fn *ssa.Function, fname, fieldSig, lock string, min int) {
-	held := fw.HeldAt(fn)
+	checkDecideAndAct(c, rule, fn, fname, fieldSig, lock)
+	// an unexported helper that every caller invokes with the mutex held starts with it held
+	held := fw.HeldAtFrom(fn, fw.EntryLocks(fn, c.P.SrcFuncs(), 0))
 	uses := guardedUses(fn, fieldSig)
 	bad := 0
 	for _, u := range uses {
-		if !held[u][lock] {
+		okHeld := held[u][lock]
+		if !okHeld && held[u][lock+"#r"] && !isWriteUse(u) {
+			okHeld = true // reading under the read lock
+		}
+		if !okHeld {
 			bad++
 			c.Fail(rule, fmt.Sprintf("%s: %s is used only with %s held", fname, fieldSig, lock), c.P.Pos(fw.InstrPos(u)), fmt.Sprintf("the shared map is accessed at %s while holding {%s}: a data race with the other users of the cache", c.P.Pos(fw.InstrPos(u)), fw.SortedLocks(held[u])))
 		}
@@ -127,7 +191,7 @@ func checkDNSCache(c *fw.Ctx) {
 	if lookup == nil || dial == nil {
 		return
 	}
-	checkLocked(c, rule, lookup, "DNSCache.lookup", "recv.entries", "recv.mutex", 6)
+	checkLocked(c, rule, lookup, "DNSCache.lookup", "recv.entries", "recv.mutex", 1)
 	checkLocked(c, rule, dial, "DNSCache.DialContext", "recv.entries", "recv.mutex", 1)
 	// every function of the package that touches entries is one of the analysed ones
 	for _, f := range c.P.SrcFuncs() {
@@ -193,13 +257,50 @@ func checkDNSCache(c *fw.Ctx) {
 		}
 	}
 	// expiry
+	pcs, okPC := fw.PathConds(lookup)
+	nhit := 0
 	for _, r := range fw.Returns(lookup) {
-		if fw.Sig(r.Results[1]) == "true" {
-			conds := condsOf(r.Block())
-			c.Check(strings.Contains(conds, "(time.Time).Before(time.Now(),") && strings.Contains(conds, ".expires)") && !strings.Contains(conds, "!(time.Time).Before("), rule, "a cached entry is served only before its expiry", c.P.Pos(fw.InstrPos(r)), "", "cached hit under ["+conds+"]")
-			c.Check(strings.Contains(fw.Sig(r.Results[0]), "entries[param:name]"), rule, "a cached hit returns the entry of the looked-up name", c.P.Pos(fw.InstrPos(r)), "", "returns "+fw.Sig(r.Results[0]))
+		if fw.Sig(r.Results[1]) != "true" || !okPC {
+			continue
 		}
+		// the hit test may live in an unexported helper: its conditions are part of the path
+		cond := fw.ExpandDNF(pcs[r.Block()], func(atom string) bool {
+			return !fw.AtomCallsUnexportedHelper(atom) || strings.Contains(atom, "(time.Time).Before(")
+		})
+		// a return after a fresh resolution is not a cache hit: it stores a new entry first
+		fresh := false
+		for _, call := range fw.CallsTo(lookup, false, func(n string) bool { return strings.HasSuffix(n, ".LookupIPAddr") }) {
+			if call.Block().Dominates(r.Block()) {
+				fresh = true
+			}
+		}
+		if fresh {
+			continue
+		}
+		nhit++
+		okAll := len(cond) > 0
+		for _, term := range cond {
+			okTerm := false
+			for _, l := range term {
+				if l.Pos && strings.Contains(l.Atom, "(time.Time).Before(time.Now(),") && strings.HasSuffix(l.Atom, ".expires)") {
+					okTerm = true
+				}
+			}
+			if !okTerm {
+				okAll = false
+			}
+		}
+		c.Check(okAll, rule, "a cached entry is served only before its expiry", c.P.Pos(fw.InstrPos(r)), "", "cached hit under ["+cond.String()+"]")
+		okVal := fw.DerivesFrom(r.Results[0], fw.FlowSpec{All: true, IsSourceIn: func(v ssa.Value, fr *fw.Frame) bool {
+			if ex, isEx := v.(*ssa.Extract); isEx {
+				v = ex.Tuple
+			}
+			lk, isLk := v.(*ssa.Lookup)
+			return isLk && strings.HasSuffix(fw.SigIn(fr, lk.X), "recv.entries") && fw.SigIn(fr, lk.Index) == "param:name"
+		}})
+		c.Check(okVal, rule, "a cached hit returns the entry of the looked-up name", c.P.Pos(fw.InstrPos(r)), "", "returns "+fw.Sig(r.Results[0]))
 	}
+	c.Min(rule+" cache-hit returns", nhit, 1)
 	for _, st := range fw.FieldStores(lookup, "dnsCacheEntry", "expires") {
 		c.Check(fw.Sig(st.Val) == "(time.Time).Add(time.Now(),*recv.duration)", rule, "a new entry expires after the configured duration", c.P.Pos(fw.InstrPos(st)), "", "expires = "+fw.Sig(st.Val))
 	}
@@ -237,6 +338,28 @@ func checkTripper(c *fw.Ctx) {
 	}
 }
 
+// sharedWithParent: the map written in closure f (nested in or equal to worker) is a variable
+// captured from outside the worker (a free variable of the worker itself).
+func sharedWithParent(f, worker *ssa.Function, m ssa.Value) bool {
+	name := strings.TrimPrefix(fw.Sig(m), "*free:")
+	for _, fv := range worker.FreeVars {
+		if fv.Name() == name {
+			return true
+		}
+	}
+	return false
+}
+
+// inFamily: fn is f or a function f is nested in.
+func inFamily(fn ssa.Value, f *ssa.Function) bool {
+	for x := f; x != nil; x = x.Parent() {
+		if fn == ssa.Value(x) {
+			return true
+		}
+	}
+	return false
+}
+
 func checkKeyFetcherPool(c *fw.Ctx) {
 	rule := "3 key-fetch-pool"
 	fn := mustFunc(c, rule, "(*DirectKeyFetcher).FetchKeys")
@@ -269,28 +392,71 @@ func checkKeyFetcherPool(c *fw.Ctx) {
 		}
 	}
 	c.Min(rule+" go statements", goes, 1)
-	// writes to the shared result map inside the worker
+	// writes to the shared result map inside the worker and the closures nested in it
 	held := fw.HeldAt(worker)
 	nw := 0
-	for _, b := range worker.Blocks {
-		for _, ins := range b.Instrs {
-			mu, ok := ins.(*ssa.MapUpdate)
-			if !ok {
-				continue
-			}
-			ms := fw.Sig(mu.Map)
-			if !strings.HasPrefix(ms, "*free:") {
-				continue // a map local to the worker
-			}
-			nw++
-			h := held[mu]
-			shared := ""
-			for l := range h {
-				if strings.HasPrefix(l, "free:") {
-					shared = l
+	var doneDefer ssa.Instruction
+	for _, call := range fw.Calls(worker) {
+		if _, isD := call.(*ssa.Defer); isD && strings.HasSuffix(fw.CalleeName(call), "WaitGroup).Done") {
+			doneDefer = call.(ssa.Instruction)
+		}
+	}
+	for _, wf := range fw.FamilyOf(worker) {
+		wheld := held
+		if wf != worker {
+			wheld = fw.HeldAt(wf)
+		}
+		for _, b := range wf.Blocks {
+			for _, ins := range b.Instrs {
+				mu, ok := ins.(*ssa.MapUpdate)
+				if !ok {
+					continue
+				}
+				ms := fw.Sig(mu.Map)
+				if !strings.HasPrefix(ms, "*free:") || !sharedWithParent(wf, worker, mu.Map) {
+					continue // a map local to the worker
+				}
+				nw++
+				h := wheld[mu]
+				shared := ""
+				for l := range h {
+					if strings.HasPrefix(l, "free:") {
+						shared = l
+					}
+				}
+				c.Check(shared != "", rule, "workers write the shared result map only under a mutex shared by all workers", c.P.Pos(fw.InstrPos(mu)), shared, fmt.Sprintf("the shared map %s is written while holding {%s}: none of these is shared between the worker goroutines (a mutex declared inside the worker is private to each goroutine), so concurrent merges race", ms, fw.SortedLocks(h)))
+				// a write made by a closure nested in the worker must still happen before Done:
+				// a deferred closure runs before Done only if it is deferred after it (LIFO)
+				if wf != worker {
+					okOrder := false
+					why := "the closure writing the results is neither called nor deferred by the worker"
+					for _, wb := range worker.Blocks {
+						for _, wi := range wb.Instrs {
+							ci, isCI := wi.(ssa.CallInstruction)
+							if !isCI {
+								continue
+							}
+							mc, isMC := ci.Common().Value.(*ssa.MakeClosure)
+							if !isMC || !inFamily(mc.Fn, wf) {
+								continue
+							}
+							switch wi.(type) {
+							case *ssa.Call:
+								okOrder = true
+							case *ssa.Defer:
+								if doneDefer != nil && fw.PathAvoiding(worker.Blocks[0], []ssa.Instruction{doneDefer}, wi) {
+									why = "the merge is deferred before Done is: deferred calls run last-in-first-out, so Done (and the parent's Wait) can complete before the results are merged"
+								} else if doneDefer != nil {
+									okOrder = true
+								}
+							case *ssa.Go:
+								why = "the results are written by a goroutine the WaitGroup does not wait for"
+							}
+						}
+					}
+					c.Check(okOrder, rule, "a worker's writes to the shared results happen before its Done", c.P.Pos(fw.InstrPos(mu)), "", why)
 				}
 			}
-			c.Check(shared != "", rule, "workers write the shared result map only under a mutex shared by all workers", c.P.Pos(fw.InstrPos(mu)), shared, fmt.Sprintf("the shared map %s is written while holding {%s}: none of these is shared between the worker goroutines (a mutex declared inside the worker is private to each goroutine), so concurrent merges race", ms, fw.SortedLocks(h)))
 		}
 	}
 	c.Min(rule+" shared writes in worker", nw, 1)
